@@ -1,134 +1,69 @@
-import AslProofs.Matrix
-import Mathlib.Tactic.IntervalCases
-import Gen.EulerGen
+import AslProofs.EulerLemmas
 /-!
 # C20 — Euler angles: `rotateE` ∘ `eulerAngles` ∘ `rotateE` = `rotateE`, for all twelve axis orders
 
-`Gen.M4.rotateX/Y/Z`, `rotateAxis`, `rotateE`, `eulerAngles` are regenerated from `Matrix4.h`; `cos`, `sin`, `asin`,
-`acos`, `atan2`, `PI` are the law-free interface `Trig`.  `TrigOK` lists what is needed of them (all true of the real
-functions, see the `example` in `AslProps/C20.lean`).  The proofs enumerate the axis orders and the 16 matrix entries
-and close each entry with `ring`; the sign ambiguity `ε = ±1` of `(sin, cos)` of the extracted angles
-(the triple `(α+π, π−β, γ+π)` describes the same rotation) is handled by `tb_compose` / `pe_compose`.
+`Gen.M4.rotateX/Y/Z`, `rotateAxis`, `rotateE`, `eulerAngles` are regenerated from `Matrix4.h`; `cos`, `sin`, `atan2`,
+`PI` are the law-free interface `Trig`, `sqrt` / `<` come from `Cmp`.  `TrigOK` and `CmpStd` list what is needed of them
+(all true of the real functions, see the `example`s in `AslProps/C20.lean`).  The brute-force parts (the matrix entries
+read by `eulerAngles`, and the composition lemmas that absorb the sign ambiguity `ε = ±1` of the extracted angles —
+the triple `(α+π, π−β, γ+π)` describes the same rotation) are in `AslProofs/EulerLemmas.lean`.
+
+`eulerAngles` computes `c = sqrt(…)` = `|cos β|` (three different axes) resp. `|sin β|` (first = third axis), takes the
+middle angle from `atan2(±element, c)` resp. `atan2(c, element)`, and uses the general formulas iff `c > lim`.
 -/
 namespace AslProofs.Euler
 open AslModel AslProofs.Matrix
 
 set_option linter.unusedSimpArgs false
 set_option linter.unusedSectionVars false
-set_option linter.unusedTactic false
-set_option linter.unreachableTactic false
-
-section entries
-variable {R : Type} [Field R]
-@[simp] theorem rotateX_00 (T : Trig R) (x : R) : Gen.M4.rotateX (fld R) T x 0 0 = 1 := by simp [Gen.M4.rotateX, ofRows]
-@[simp] theorem rotateX_01 (T : Trig R) (x : R) : Gen.M4.rotateX (fld R) T x 0 1 = 0 := by simp [Gen.M4.rotateX, ofRows]
-@[simp] theorem rotateX_02 (T : Trig R) (x : R) : Gen.M4.rotateX (fld R) T x 0 2 = 0 := by simp [Gen.M4.rotateX, ofRows]
-@[simp] theorem rotateX_03 (T : Trig R) (x : R) : Gen.M4.rotateX (fld R) T x 0 3 = 0 := by simp [Gen.M4.rotateX, ofRows]
-@[simp] theorem rotateX_10 (T : Trig R) (x : R) : Gen.M4.rotateX (fld R) T x 1 0 = 0 := by simp [Gen.M4.rotateX, ofRows]
-@[simp] theorem rotateX_11 (T : Trig R) (x : R) : Gen.M4.rotateX (fld R) T x 1 1 = T.cos x := by simp [Gen.M4.rotateX, ofRows]
-@[simp] theorem rotateX_12 (T : Trig R) (x : R) : Gen.M4.rotateX (fld R) T x 1 2 = -T.sin x := by simp [Gen.M4.rotateX, ofRows]
-@[simp] theorem rotateX_13 (T : Trig R) (x : R) : Gen.M4.rotateX (fld R) T x 1 3 = 0 := by simp [Gen.M4.rotateX, ofRows]
-@[simp] theorem rotateX_20 (T : Trig R) (x : R) : Gen.M4.rotateX (fld R) T x 2 0 = 0 := by simp [Gen.M4.rotateX, ofRows]
-@[simp] theorem rotateX_21 (T : Trig R) (x : R) : Gen.M4.rotateX (fld R) T x 2 1 = T.sin x := by simp [Gen.M4.rotateX, ofRows]
-@[simp] theorem rotateX_22 (T : Trig R) (x : R) : Gen.M4.rotateX (fld R) T x 2 2 = T.cos x := by simp [Gen.M4.rotateX, ofRows]
-@[simp] theorem rotateX_23 (T : Trig R) (x : R) : Gen.M4.rotateX (fld R) T x 2 3 = 0 := by simp [Gen.M4.rotateX, ofRows]
-@[simp] theorem rotateX_30 (T : Trig R) (x : R) : Gen.M4.rotateX (fld R) T x 3 0 = 0 := by simp [Gen.M4.rotateX, ofRows]
-@[simp] theorem rotateX_31 (T : Trig R) (x : R) : Gen.M4.rotateX (fld R) T x 3 1 = 0 := by simp [Gen.M4.rotateX, ofRows]
-@[simp] theorem rotateX_32 (T : Trig R) (x : R) : Gen.M4.rotateX (fld R) T x 3 2 = 0 := by simp [Gen.M4.rotateX, ofRows]
-@[simp] theorem rotateX_33 (T : Trig R) (x : R) : Gen.M4.rotateX (fld R) T x 3 3 = 1 := by simp [Gen.M4.rotateX, ofRows]
-@[simp] theorem rotateY_00 (T : Trig R) (x : R) : Gen.M4.rotateY (fld R) T x 0 0 = T.cos x := by simp [Gen.M4.rotateY, ofRows]
-@[simp] theorem rotateY_01 (T : Trig R) (x : R) : Gen.M4.rotateY (fld R) T x 0 1 = 0 := by simp [Gen.M4.rotateY, ofRows]
-@[simp] theorem rotateY_02 (T : Trig R) (x : R) : Gen.M4.rotateY (fld R) T x 0 2 = T.sin x := by simp [Gen.M4.rotateY, ofRows]
-@[simp] theorem rotateY_03 (T : Trig R) (x : R) : Gen.M4.rotateY (fld R) T x 0 3 = 0 := by simp [Gen.M4.rotateY, ofRows]
-@[simp] theorem rotateY_10 (T : Trig R) (x : R) : Gen.M4.rotateY (fld R) T x 1 0 = 0 := by simp [Gen.M4.rotateY, ofRows]
-@[simp] theorem rotateY_11 (T : Trig R) (x : R) : Gen.M4.rotateY (fld R) T x 1 1 = 1 := by simp [Gen.M4.rotateY, ofRows]
-@[simp] theorem rotateY_12 (T : Trig R) (x : R) : Gen.M4.rotateY (fld R) T x 1 2 = 0 := by simp [Gen.M4.rotateY, ofRows]
-@[simp] theorem rotateY_13 (T : Trig R) (x : R) : Gen.M4.rotateY (fld R) T x 1 3 = 0 := by simp [Gen.M4.rotateY, ofRows]
-@[simp] theorem rotateY_20 (T : Trig R) (x : R) : Gen.M4.rotateY (fld R) T x 2 0 = -T.sin x := by simp [Gen.M4.rotateY, ofRows]
-@[simp] theorem rotateY_21 (T : Trig R) (x : R) : Gen.M4.rotateY (fld R) T x 2 1 = 0 := by simp [Gen.M4.rotateY, ofRows]
-@[simp] theorem rotateY_22 (T : Trig R) (x : R) : Gen.M4.rotateY (fld R) T x 2 2 = T.cos x := by simp [Gen.M4.rotateY, ofRows]
-@[simp] theorem rotateY_23 (T : Trig R) (x : R) : Gen.M4.rotateY (fld R) T x 2 3 = 0 := by simp [Gen.M4.rotateY, ofRows]
-@[simp] theorem rotateY_30 (T : Trig R) (x : R) : Gen.M4.rotateY (fld R) T x 3 0 = 0 := by simp [Gen.M4.rotateY, ofRows]
-@[simp] theorem rotateY_31 (T : Trig R) (x : R) : Gen.M4.rotateY (fld R) T x 3 1 = 0 := by simp [Gen.M4.rotateY, ofRows]
-@[simp] theorem rotateY_32 (T : Trig R) (x : R) : Gen.M4.rotateY (fld R) T x 3 2 = 0 := by simp [Gen.M4.rotateY, ofRows]
-@[simp] theorem rotateY_33 (T : Trig R) (x : R) : Gen.M4.rotateY (fld R) T x 3 3 = 1 := by simp [Gen.M4.rotateY, ofRows]
-@[simp] theorem rotateZ_00 (T : Trig R) (x : R) : Gen.M4.rotateZ (fld R) T x 0 0 = T.cos x := by simp [Gen.M4.rotateZ, ofRows]
-@[simp] theorem rotateZ_01 (T : Trig R) (x : R) : Gen.M4.rotateZ (fld R) T x 0 1 = -T.sin x := by simp [Gen.M4.rotateZ, ofRows]
-@[simp] theorem rotateZ_02 (T : Trig R) (x : R) : Gen.M4.rotateZ (fld R) T x 0 2 = 0 := by simp [Gen.M4.rotateZ, ofRows]
-@[simp] theorem rotateZ_03 (T : Trig R) (x : R) : Gen.M4.rotateZ (fld R) T x 0 3 = 0 := by simp [Gen.M4.rotateZ, ofRows]
-@[simp] theorem rotateZ_10 (T : Trig R) (x : R) : Gen.M4.rotateZ (fld R) T x 1 0 = T.sin x := by simp [Gen.M4.rotateZ, ofRows]
-@[simp] theorem rotateZ_11 (T : Trig R) (x : R) : Gen.M4.rotateZ (fld R) T x 1 1 = T.cos x := by simp [Gen.M4.rotateZ, ofRows]
-@[simp] theorem rotateZ_12 (T : Trig R) (x : R) : Gen.M4.rotateZ (fld R) T x 1 2 = 0 := by simp [Gen.M4.rotateZ, ofRows]
-@[simp] theorem rotateZ_13 (T : Trig R) (x : R) : Gen.M4.rotateZ (fld R) T x 1 3 = 0 := by simp [Gen.M4.rotateZ, ofRows]
-@[simp] theorem rotateZ_20 (T : Trig R) (x : R) : Gen.M4.rotateZ (fld R) T x 2 0 = 0 := by simp [Gen.M4.rotateZ, ofRows]
-@[simp] theorem rotateZ_21 (T : Trig R) (x : R) : Gen.M4.rotateZ (fld R) T x 2 1 = 0 := by simp [Gen.M4.rotateZ, ofRows]
-@[simp] theorem rotateZ_22 (T : Trig R) (x : R) : Gen.M4.rotateZ (fld R) T x 2 2 = 1 := by simp [Gen.M4.rotateZ, ofRows]
-@[simp] theorem rotateZ_23 (T : Trig R) (x : R) : Gen.M4.rotateZ (fld R) T x 2 3 = 0 := by simp [Gen.M4.rotateZ, ofRows]
-@[simp] theorem rotateZ_30 (T : Trig R) (x : R) : Gen.M4.rotateZ (fld R) T x 3 0 = 0 := by simp [Gen.M4.rotateZ, ofRows]
-@[simp] theorem rotateZ_31 (T : Trig R) (x : R) : Gen.M4.rotateZ (fld R) T x 3 1 = 0 := by simp [Gen.M4.rotateZ, ofRows]
-@[simp] theorem rotateZ_32 (T : Trig R) (x : R) : Gen.M4.rotateZ (fld R) T x 3 2 = 0 := by simp [Gen.M4.rotateZ, ofRows]
-@[simp] theorem rotateZ_33 (T : Trig R) (x : R) : Gen.M4.rotateZ (fld R) T x 3 3 = 1 := by simp [Gen.M4.rotateZ, ofRows]
-@[simp] theorem rotateAxis_0 (T : Trig R) (x : R) : Gen.M4.rotateAxis (fld R) T 0 x = Gen.M4.rotateX (fld R) T x := by simp [Gen.M4.rotateAxis]
-@[simp] theorem rotateAxis_1 (T : Trig R) (x : R) : Gen.M4.rotateAxis (fld R) T 1 x = Gen.M4.rotateY (fld R) T x := by simp [Gen.M4.rotateAxis]
-@[simp] theorem rotateAxis_2 (T : Trig R) (x : R) : Gen.M4.rotateAxis (fld R) T 2 x = Gen.M4.rotateZ (fld R) T x := by simp [Gen.M4.rotateAxis]
-
-end entries
 
 section euler
 variable {R : Type} [Field R] [LinearOrder R] [IsStrictOrderedRing R]
 
-/-- sign used by `eulerAngles` for the Tait–Bryan orders -/
-def tbSign (a0 a1 : Nat) : R := if (a1 + 3 - a0) % 3 = 1 then -1 else 1
-
-set_option maxHeartbeats 4000000 in
-theorem tb_entries (T : Trig R) (r : V3 R) (a0 a1 a2 : Nat) (h0 : a0 < 3) (h1 : a1 < 3) (h2 : a2 < 3)
-    (h01 : a0 ≠ a1) (h12 : a1 ≠ a2) (h02 : a0 ≠ a2) :
-    let M := Gen.M4.rotateE (fld R) T r a0 a1 a2
-    (-(tbSign a0 a1 : R)) * M a0 a2 = T.sin r.y ∧
-    tbSign a0 a1 * M a1 a2 = T.sin r.x * T.cos r.y ∧ M a2 a2 = T.cos r.x * T.cos r.y ∧
-    tbSign a0 a1 * M a0 a1 = T.sin r.z * T.cos r.y ∧ M a0 a0 = T.cos r.z * T.cos r.y := by
-  interval_cases a0 <;> interval_cases a1 <;> interval_cases a2 <;> simp at h01 h12 h02 <;>
-    simp [tbSign, Gen.M4.rotateE, Gen.M4.rotateAxis, Gen.M4.rotateX, Gen.M4.rotateY, Gen.M4.rotateZ, Gen.M4.mul, Gen.M4.mulEntry, ofRows] <;>
-    (split_ands <;> ring)
-
-set_option maxHeartbeats 8000000 in
-theorem tb_compose (T : Trig R) (r r' : V3 R) (ε : R) (hε : ε = 1 ∨ ε = -1)
-    (hx : T.sin r'.x = ε * T.sin r.x ∧ T.cos r'.x = ε * T.cos r.x)
-    (hy : T.sin r'.y = T.sin r.y ∧ T.cos r'.y = ε * T.cos r.y)
-    (hz : T.sin r'.z = ε * T.sin r.z ∧ T.cos r'.z = ε * T.cos r.z)
-    (a0 a1 a2 : Nat) (h0 : a0 < 3) (h1 : a1 < 3) (h2 : a2 < 3) (h01 : a0 ≠ a1) (h12 : a1 ≠ a2) (h02 : a0 ≠ a2) :
-    toM4 (Gen.M4.rotateE (fld R) T r' a0 a1 a2) = toM4 (Gen.M4.rotateE (fld R) T r a0 a1 a2) := by
-  obtain ⟨hx1, hx2⟩ := hx
-  obtain ⟨hy1, hy2⟩ := hy
-  obtain ⟨hz1, hz2⟩ := hz
-  rcases hε with rfl | rfl
-  · simp only [one_mul] at hx1 hx2 hy2 hz1 hz2
-    simp only [Gen.M4.rotateE, Gen.M4.rotateAxis, Gen.M4.rotateX, Gen.M4.rotateY, Gen.M4.rotateZ, hx1, hx2, hy1, hy2, hz1, hz2]
-  · ext i j
-    interval_cases a0 <;> interval_cases a1 <;> interval_cases a2 <;> simp at h01 h12 h02 <;>
-      fin_cases i <;> fin_cases j <;>
-      simp [toM4, Gen.M4.rotateE, Gen.M4.mul, Gen.M4.mulEntry, hx1, hx2, hy1, hy2, hz1, hz2] <;> ring
-
 /-- what the conversions need from the scalar type's trigonometric functions (all true of the real functions) -/
 structure TrigOK (T : Trig R) : Prop where
   unit : ∀ x, T.cos x * T.cos x + T.sin x * T.sin x = 1
-  asin_spec : ∀ y, -1 ≤ y → y ≤ 1 → T.sin (T.asin y) = y ∧ 0 ≤ T.cos (T.asin y)
-  acos_spec : ∀ y, -1 ≤ y → y ≤ 1 → T.cos (T.acos y) = y ∧ 0 ≤ T.sin (T.acos y)
   atan2_spec : ∀ s c, (s ≠ 0 ∨ c ≠ 0) → ∃ ρ, 0 < ρ ∧ s = ρ * T.sin (T.atan2 s c) ∧ c = ρ * T.cos (T.atan2 s c)
   sin_zero : T.sin 0 = 0
   cos_zero : T.cos 0 = 1
   sin_neg : ∀ x, T.sin (-x) = -T.sin x
   cos_neg : ∀ x, T.cos (-x) = T.cos x
-  sin_half_pi : T.sin (T.pi / 2) = 1
-  cos_half_pi : T.cos (T.pi / 2) = 0
-  sin_pi : T.sin T.pi = 0
-  cos_pi : T.cos T.pi = -1
 
-theorem pos_root_unique {a b : R} (ha : 0 ≤ a) (hb : 0 < b) (h : a * a = b * b) : a = b := by
-  have : (a - b) * (a + b) = 0 := by linear_combination h
-  rcases mul_eq_zero.mp this with h1 | h1
-  · linarith
-  · linarith
+/-- what they need of `<`, `== 0`, `sqrt` -/
+structure CmpStd (C : Cmp R) : Prop where
+  lt : ∀ a b, C.lt a b = decide (a < b)
+  eqz : ∀ x, C.eqz x = true ↔ x = 0
+  sqrt : ∀ z, 0 ≤ z → 0 ≤ C.sqrt z ∧ C.sqrt z * C.sqrt z = z
+
+theorem sqrt_sq {C : Cmp R} (hC : CmpStd C) (a : R) : C.sqrt (a * a) = |a| := by
+  obtain ⟨h1, h2⟩ := hC.sqrt (a * a) (mul_self_nonneg a)
+  rcases le_or_gt 0 a with h | h
+  · rw [abs_of_nonneg h]
+    rcases eq_or_lt_of_le h with e | e
+    · rw [← e] at h2 ⊢
+      have : C.sqrt (0 * 0) * C.sqrt (0 * 0) = 0 := by simpa using h2
+      exact mul_self_eq_zero.mp this
+    · exact pos_root_unique h1 e h2
+  · rw [abs_of_neg h]
+    exact pos_root_unique h1 (by linarith) (by rw [h2]; ring)
+
+/-- `atan2` of a point of the unit circle returns an angle with exactly that sine and cosine -/
+theorem atan2_unit {T : Trig R} (hT : TrigOK T) (s c : R) (h : c * c + s * s = 1) :
+    T.sin (T.atan2 s c) = s ∧ T.cos (T.atan2 s c) = c := by
+  have hne : s ≠ 0 ∨ c ≠ 0 := by
+    by_contra hh
+    push Not at hh
+    rw [hh.1, hh.2] at h; norm_num at h
+  obtain ⟨ρ, hρ, e1, e2⟩ := hT.atan2_spec s c hne
+  have hu := hT.unit (T.atan2 s c)
+  have hρ1 : ρ = 1 := by
+    apply pos_root_unique (le_of_lt hρ) one_pos
+    have : ρ * ρ * (T.cos (T.atan2 s c) * T.cos (T.atan2 s c) + T.sin (T.atan2 s c) * T.sin (T.atan2 s c)) = c * c + s * s := by
+      linear_combination (-(ρ * T.sin (T.atan2 s c)) - s) * e1 + (-(ρ * T.cos (T.atan2 s c)) - c) * e2
+    rw [hu, h] at this
+    linear_combination this
+  rw [hρ1, one_mul] at e1 e2
+  exact ⟨e1.symm, e2.symm⟩
 
 theorem atan2_scaled {T : Trig R} (hT : TrigOK T) (k sx cx : R) (hk : k ≠ 0) (hu : cx * cx + sx * sx = 1) :
     ∃ ρ, 0 < ρ ∧ ρ * ρ = k * k ∧ T.sin (T.atan2 (sx * k) (cx * k)) = (k / ρ) * sx ∧
@@ -153,190 +88,109 @@ theorem atan2_scaled {T : Trig R} (hT : TrigOK T) (k sx cx : R) (hk : k ≠ 0) (
   · rw [div_mul_eq_mul_div, eq_div_iff hρ0]
     linear_combination -e2
 
-
-theorem tbSign_sq (a0 a1 : Nat) : (tbSign a0 a1 : R) = 1 ∨ (tbSign a0 a1 : R) = -1 := by
-  unfold tbSign; split <;> simp
-
-/-- **Tait–Bryan orders, away from gimbal lock**: for every angle triple `r` (any values) whose middle angle is not
-within the lock threshold, converting `rotateE(r)` to Euler angles and back gives the same rotation matrix -/
-theorem euler_tb_roundtrip {T : Trig R} (hT : TrigOK T) (C : Cmp R) (hlt : ∀ a b, C.lt a b = decide (a < b))
-    (habs : ∀ x, C.abs x = |x|) (lim : R) (hlim : lim ≤ 1) (r : V3 R)
+/-- **Tait–Bryan orders, away from gimbal lock** (`|cos β| > lim ≥ 0`, the general branch): for every angle triple `r`
+converting `rotateE(r)` to Euler angles and back gives the same rotation matrix -/
+theorem euler_tb_roundtrip {T : Trig R} (hT : TrigOK T) {C : Cmp R} (hC : CmpStd C) (lim : R) (hlim : 0 ≤ lim) (r : V3 R)
     (a0 a1 a2 : Nat) (h0 : a0 < 3) (h1 : a1 < 3) (h2 : a2 < 3) (h01 : a0 ≠ a1) (h12 : a1 ≠ a2) (h02 : a0 ≠ a2)
-    (hnd : |T.sin r.y| < lim) :
+    (hnd : lim < |T.cos r.y|) :
     toM4 (Gen.M4.rotateE (fld R) T
       (Gen.M4.eulerAngles (fld R) C T lim (Gen.M4.rotateE (fld R) T r a0 a1 a2) a0 a1 a2) a0 a1 a2) =
     toM4 (Gen.M4.rotateE (fld R) T r a0 a1 a2) := by
   obtain ⟨e1, e2, e3, e4, e5⟩ := tb_entries T r a0 a1 a2 h0 h1 h2 h01 h12 h02
   set M := Gen.M4.rotateE (fld R) T r a0 a1 a2 with hM
-  have habsM : |M a0 a2| = |T.sin r.y| := by
-    rw [← e1]
-    rcases tbSign_sq (R := R) a0 a1 with h | h <;> rw [h] <;> simp
-  have hcond : C.lt (C.abs (M a0 a2)) lim = true := by
-    rw [hlt, habs, habsM]; simpa using hnd
+  have hss := tbSign_sq (R := R) a0 a1
+  have hs2 : (tbSign a0 a1 : R) * tbSign a0 a1 = 1 := by rcases hss with h | h <;> rw [h] <;> ring
+  have hub := hT.unit r.y
+  have huz := hT.unit r.z
+  have hcb : T.cos r.y ≠ 0 := by
+    intro h; rw [h, abs_zero] at hnd; linarith
+  -- the value of `c`
+  have hc : C.sqrt (M a0 a0 * M a0 a0 + M a0 a1 * M a0 a1) = |T.cos r.y| := by
+    have : M a0 a0 * M a0 a0 + M a0 a1 * M a0 a1 = T.cos r.y * T.cos r.y := by
+      have e4' : M a0 a1 * M a0 a1 = (T.sin r.z * T.cos r.y) * (T.sin r.z * T.cos r.y) := by
+        rw [← e4]; linear_combination (M a0 a1 * M a0 a1) * (-hs2)
+      rw [e4', e5]; linear_combination (T.cos r.y * T.cos r.y) * huz
+    rw [this]; exact sqrt_sq hC _
+  have hcond : C.lt lim |T.cos r.y| = true := by rw [hC.lt]; simpa using hnd
   have hE : Gen.M4.eulerAngles (fld R) C T lim M a0 a1 a2 =
-      ⟨T.atan2 (T.sin r.x * T.cos r.y) (T.cos r.x * T.cos r.y), T.asin (T.sin r.y),
+      ⟨T.atan2 (T.sin r.x * T.cos r.y) (T.cos r.x * T.cos r.y), T.atan2 (T.sin r.y) |T.cos r.y|,
        T.atan2 (T.sin r.z * T.cos r.y) (T.cos r.z * T.cos r.y)⟩ := by
     unfold tbSign at e1 e2 e4
-    simp only [Gen.M4.eulerAngles, h02, ne_eq, not_false_eq_true, if_true, hcond, fld_mul, fld_neg, fld_lit, Nat.cast_one, e1, e2, e3, e4, e5]
+    simp only [Gen.M4.eulerAngles, h02, ne_eq, not_false_eq_true, if_true, fld_mul, fld_add, fld_neg, fld_lit, Nat.cast_one, hc, hcond]
+    simp only [e1, e2, e3, e4, e5]
   rw [hE]
-  -- the trigonometric values of the extracted angles
-  have hub := hT.unit r.y
-  have hsb : T.sin r.y * T.sin r.y < 1 := by
-    have h1 : |T.sin r.y| < 1 := lt_of_lt_of_le hnd hlim
-    have := abs_lt.mp h1
-    nlinarith [this.1, this.2]
-  have hcb : T.cos r.y ≠ 0 := by
-    intro h; rw [h] at hub; nlinarith
-  have hsb' : -1 ≤ T.sin r.y ∧ T.sin r.y ≤ 1 := by
-    have h1 : |T.sin r.y| < 1 := lt_of_lt_of_le hnd hlim
-    have := abs_lt.mp h1
-    exact ⟨le_of_lt this.1, le_of_lt this.2⟩
-  obtain ⟨ha1, ha2⟩ := hT.asin_spec (T.sin r.y) hsb'.1 hsb'.2
-  obtain ⟨ρ2, hρ2, hq2, hs2, hc2⟩ := atan2_scaled hT (T.cos r.y) (T.sin r.x) (T.cos r.x) hcb (hT.unit r.x)
+  obtain ⟨ha1, ha2⟩ := atan2_unit hT (T.sin r.y) |T.cos r.y| (by rw [abs_mul_abs_self]; exact hub)
+  obtain ⟨ρ2, hρ2, hq2, hs2', hc2⟩ := atan2_scaled hT (T.cos r.y) (T.sin r.x) (T.cos r.x) hcb (hT.unit r.x)
   obtain ⟨ρ0, hρ0, hq0, hs0, hc0⟩ := atan2_scaled hT (T.cos r.y) (T.sin r.z) (T.cos r.z) hcb (hT.unit r.z)
   have hρ : ρ0 = ρ2 := pos_root_unique (le_of_lt hρ0) hρ2 (by rw [hq0, hq2])
   subst hρ
-  have hu1 := hT.unit (T.asin (T.sin r.y))
-  have hc1 : T.cos (T.asin (T.sin r.y)) = ρ0 := by
-    apply pos_root_unique ha2 hρ0
-    rw [hq0]
-    rw [ha1] at hu1
-    linear_combination hu1 - hub
+  have hρabs : ρ0 = |T.cos r.y| :=
+    pos_root_unique (le_of_lt hρ0) (abs_pos.mpr hcb) (by rw [hq0, abs_mul_abs_self])
+  have hne : ρ0 ≠ 0 := ne_of_gt hρ0
   have hε : T.cos r.y / ρ0 = 1 ∨ T.cos r.y / ρ0 = -1 := by
-    have hne : ρ0 ≠ 0 := ne_of_gt hρ0
     have : (T.cos r.y / ρ0) * (T.cos r.y / ρ0) = 1 := by
       field_simp; linear_combination -hq0
     exact mul_self_eq_one_iff.mp this
-  apply tb_compose T r _ (T.cos r.y / ρ0) hε ⟨hs2, hc2⟩ ⟨ha1, ?_⟩ ⟨hs0, hc0⟩ a0 a1 a2 h0 h1 h2 h01 h12 h02
-  show T.cos (T.asin (T.sin r.y)) = T.cos r.y / ρ0 * T.cos r.y
-  rw [hc1]
-  have hne : ρ0 ≠ 0 := ne_of_gt hρ0
+  apply tb_compose T r _ (T.cos r.y / ρ0) hε ⟨hs2', hc2⟩ ⟨ha1, ?_⟩ ⟨hs0, hc0⟩ a0 a1 a2 h0 h1 h2 h01 h12 h02
+  show T.cos (T.atan2 (T.sin r.y) |T.cos r.y|) = T.cos r.y / ρ0 * T.cos r.y
+  rw [ha2, ← hρabs]
   field_simp
   linear_combination hq0
 
-
-/-- sign used by `eulerAngles` for the proper Euler orders (first axis = third axis) -/
-def peSign (a0 a1 : Nat) : R := if (a1 + 3 - a0) % 3 = 2 then -1 else 1
-
-theorem peSign_sq (a0 a1 : Nat) : (peSign a0 a1 : R) = 1 ∨ (peSign a0 a1 : R) = -1 := by
-  unfold peSign; split <;> simp
-
-set_option maxHeartbeats 4000000 in
-theorem pe_entries (T : Trig R) (r : V3 R) (a0 a1 : Nat) (h0 : a0 < 3) (h1 : a1 < 3) (h01 : a0 ≠ a1) :
-    let M := Gen.M4.rotateE (fld R) T r a0 a1 a0
-    M a0 a0 = T.cos r.y ∧
-    M a1 a0 = T.sin r.x * T.sin r.y ∧ (-(peSign a0 a1 : R)) * M (3 - a0 - a1) a0 = T.cos r.x * T.sin r.y ∧
-    M a0 a1 = T.sin r.z * T.sin r.y ∧ peSign a0 a1 * M a0 (3 - a0 - a1) = T.cos r.z * T.sin r.y := by
-  interval_cases a0 <;> interval_cases a1 <;> simp at h01 <;>
-    simp [peSign, Gen.M4.rotateE, Gen.M4.mul, Gen.M4.mulEntry] <;>
-    (split_ands <;> ring)
-
-set_option maxHeartbeats 8000000 in
-theorem pe_compose (T : Trig R) (r r' : V3 R) (ε : R) (hε : ε = 1 ∨ ε = -1)
-    (hx : T.sin r'.x = ε * T.sin r.x ∧ T.cos r'.x = ε * T.cos r.x)
-    (hy : T.sin r'.y = ε * T.sin r.y ∧ T.cos r'.y = T.cos r.y)
-    (hz : T.sin r'.z = ε * T.sin r.z ∧ T.cos r'.z = ε * T.cos r.z)
-    (a0 a1 : Nat) (h0 : a0 < 3) (h1 : a1 < 3) (h01 : a0 ≠ a1) :
-    toM4 (Gen.M4.rotateE (fld R) T r' a0 a1 a0) = toM4 (Gen.M4.rotateE (fld R) T r a0 a1 a0) := by
-  obtain ⟨hx1, hx2⟩ := hx
-  obtain ⟨hy1, hy2⟩ := hy
-  obtain ⟨hz1, hz2⟩ := hz
-  rcases hε with rfl | rfl
-  · simp only [one_mul] at hx1 hx2 hy1 hz1 hz2
-    simp only [Gen.M4.rotateE, Gen.M4.rotateAxis, Gen.M4.rotateX, Gen.M4.rotateY, Gen.M4.rotateZ, hx1, hx2, hy1, hy2, hz1, hz2]
-  · ext i j
-    interval_cases a0 <;> interval_cases a1 <;> simp at h01 <;>
-      fin_cases i <;> fin_cases j <;>
-      simp [toM4, Gen.M4.rotateE, Gen.M4.mul, Gen.M4.mulEntry, hx1, hx2, hy1, hy2, hz1, hz2] <;> ring
-
-/-- **proper Euler orders (first axis = third axis), away from the lock** -/
-theorem euler_pe_roundtrip {T : Trig R} (hT : TrigOK T) (C : Cmp R) (hlt : ∀ a b, C.lt a b = decide (a < b))
-    (habs : ∀ x, C.abs x = |x|) (lim : R) (hlim : lim ≤ 1) (r : V3 R)
-    (a0 a1 : Nat) (h0 : a0 < 3) (h1 : a1 < 3) (h01 : a0 ≠ a1) (hnd : |T.cos r.y| < lim) :
+/-- **proper Euler orders (first axis = third axis), away from the lock** (`|sin β| > lim ≥ 0`) -/
+theorem euler_pe_roundtrip {T : Trig R} (hT : TrigOK T) {C : Cmp R} (hC : CmpStd C) (lim : R) (hlim : 0 ≤ lim) (r : V3 R)
+    (a0 a1 : Nat) (h0 : a0 < 3) (h1 : a1 < 3) (h01 : a0 ≠ a1) (hnd : lim < |T.sin r.y|) :
     toM4 (Gen.M4.rotateE (fld R) T
       (Gen.M4.eulerAngles (fld R) C T lim (Gen.M4.rotateE (fld R) T r a0 a1 a0) a0 a1 a0) a0 a1 a0) =
     toM4 (Gen.M4.rotateE (fld R) T r a0 a1 a0) := by
   obtain ⟨e1, e2, e3, e4, e5⟩ := pe_entries T r a0 a1 h0 h1 h01
   set M := Gen.M4.rotateE (fld R) T r a0 a1 a0 with hM
-  have hcond : C.lt (C.abs (T.cos r.y)) lim = true := by
-    rw [hlt, habs]; simpa using hnd
+  have hss := peSign_sq (R := R) a0 a1
+  have hs2 : (peSign a0 a1 : R) * peSign a0 a1 = 1 := by rcases hss with h | h <;> rw [h] <;> ring
+  have hub := hT.unit r.y
+  have hux := hT.unit r.x
+  have hsb : T.sin r.y ≠ 0 := by
+    intro h; rw [h, abs_zero] at hnd; linarith
+  have hc : C.sqrt (M a1 a0 * M a1 a0 + M (3 - a0 - a1) a0 * M (3 - a0 - a1) a0) = |T.sin r.y| := by
+    have : M a1 a0 * M a1 a0 + M (3 - a0 - a1) a0 * M (3 - a0 - a1) a0 = T.sin r.y * T.sin r.y := by
+      have e3' : M (3 - a0 - a1) a0 * M (3 - a0 - a1) a0 = (T.cos r.x * T.sin r.y) * (T.cos r.x * T.sin r.y) := by
+        rw [← e3]; linear_combination (M (3 - a0 - a1) a0 * M (3 - a0 - a1) a0) * (-hs2)
+      rw [e3', e2]; linear_combination (T.sin r.y * T.sin r.y) * hux
+    rw [this]; exact sqrt_sq hC _
+  have hcond : C.lt lim |T.sin r.y| = true := by rw [hC.lt]; simpa using hnd
   have hE : Gen.M4.eulerAngles (fld R) C T lim M a0 a1 a0 =
-      ⟨T.atan2 (T.sin r.x * T.sin r.y) (T.cos r.x * T.sin r.y), T.acos (T.cos r.y),
+      ⟨T.atan2 (T.sin r.x * T.sin r.y) (T.cos r.x * T.sin r.y), T.atan2 |T.sin r.y| (T.cos r.y),
        T.atan2 (T.sin r.z * T.sin r.y) (T.cos r.z * T.sin r.y)⟩ := by
     unfold peSign at e3 e5
-    simp only [Gen.M4.eulerAngles, ne_eq, not_true_eq_false, if_false, hcond, if_true, fld_mul, fld_neg, fld_lit, Nat.cast_one, e1, e2, e3, e4, e5]
+    simp only [Gen.M4.eulerAngles, ne_eq, not_true_eq_false, if_false, fld_mul, fld_add, fld_neg, fld_lit, Nat.cast_one,
+      hc, hcond, if_true]
+    simp only [e1, e2, e3, e4, e5]
   rw [hE]
-  have hub := hT.unit r.y
-  have hcb' : -1 ≤ T.cos r.y ∧ T.cos r.y ≤ 1 := by
-    have h1 : |T.cos r.y| < 1 := lt_of_lt_of_le hnd hlim
-    have := abs_lt.mp h1
-    exact ⟨le_of_lt this.1, le_of_lt this.2⟩
-  have hcb : T.cos r.y * T.cos r.y < 1 := by
-    have h1 : |T.cos r.y| < 1 := lt_of_lt_of_le hnd hlim
-    have := abs_lt.mp h1
-    nlinarith [this.1, this.2]
-  have hsb : T.sin r.y ≠ 0 := by
-    intro h; rw [h] at hub; nlinarith
-  obtain ⟨ha1, ha2⟩ := hT.acos_spec (T.cos r.y) hcb'.1 hcb'.2
-  obtain ⟨ρ2, hρ2, hq2, hs2, hc2⟩ := atan2_scaled hT (T.sin r.y) (T.sin r.x) (T.cos r.x) hsb (hT.unit r.x)
+  obtain ⟨ha1, ha2⟩ := atan2_unit hT |T.sin r.y| (T.cos r.y) (by rw [abs_mul_abs_self]; exact hub)
+  obtain ⟨ρ2, hρ2, hq2, hs2', hc2⟩ := atan2_scaled hT (T.sin r.y) (T.sin r.x) (T.cos r.x) hsb (hT.unit r.x)
   obtain ⟨ρ0, hρ0, hq0, hs0, hc0⟩ := atan2_scaled hT (T.sin r.y) (T.sin r.z) (T.cos r.z) hsb (hT.unit r.z)
   have hρ : ρ0 = ρ2 := pos_root_unique (le_of_lt hρ0) hρ2 (by rw [hq0, hq2])
   subst hρ
-  have hu1 := hT.unit (T.acos (T.cos r.y))
-  have hs1 : T.sin (T.acos (T.cos r.y)) = ρ0 := by
-    apply pos_root_unique ha2 hρ0
-    rw [hq0]
-    rw [ha1] at hu1
-    linear_combination hu1 - hub
+  have hρabs : ρ0 = |T.sin r.y| :=
+    pos_root_unique (le_of_lt hρ0) (abs_pos.mpr hsb) (by rw [hq0, abs_mul_abs_self])
   have hne : ρ0 ≠ 0 := ne_of_gt hρ0
   have hε : T.sin r.y / ρ0 = 1 ∨ T.sin r.y / ρ0 = -1 := by
     have : (T.sin r.y / ρ0) * (T.sin r.y / ρ0) = 1 := by
       field_simp; linear_combination -hq0
     exact mul_self_eq_one_iff.mp this
-  apply pe_compose T r _ (T.sin r.y / ρ0) hε ⟨hs2, hc2⟩ ⟨?_, ha1⟩ ⟨hs0, hc0⟩ a0 a1 h0 h1 h01
-  show T.sin (T.acos (T.cos r.y)) = T.sin r.y / ρ0 * T.sin r.y
-  rw [hs1]
+  apply pe_compose T r _ (T.sin r.y / ρ0) hε ⟨hs2', hc2⟩ ⟨?_, ha2⟩ ⟨hs0, hc0⟩ a0 a1 h0 h1 h01
+  show T.sin (T.atan2 |T.sin r.y| (T.cos r.y)) = T.sin r.y / ρ0 * T.sin r.y
+  rw [ha1, ← hρabs]
   field_simp
   linear_combination hq0
 
-/-! ### exactly on the gimbal lock -/
-
-set_option maxHeartbeats 8000000 in
-/-- Tait–Bryan, `cos β = 0`: the entries read by the locked branch form a point of the unit circle -/
-theorem tb_lock_entries (T : Trig R) (hu : ∀ x, T.cos x * T.cos x + T.sin x * T.sin x = 1) (r : V3 R) (σ : R) (hσ : σ = 1 ∨ σ = -1)
-    (hs : T.sin r.y = σ) (hc : T.cos r.y = 0)
-    (a0 a1 a2 : Nat) (h0 : a0 < 3) (h1 : a1 < 3) (h2 : a2 < 3) (h01 : a0 ≠ a1) (h12 : a1 ≠ a2) (h02 : a0 ≠ a2) :
-    Gen.M4.rotateE (fld R) T r a0 a1 a2 a1 a0 * Gen.M4.rotateE (fld R) T r a0 a1 a2 a1 a0 +
-      Gen.M4.rotateE (fld R) T r a0 a1 a2 a1 a1 * Gen.M4.rotateE (fld R) T r a0 a1 a2 a1 a1 = 1 := by
-  have hua := hu r.x
-  have hug := hu r.z
-  rcases hσ with rfl | rfl <;>
-  interval_cases a0 <;> interval_cases a1 <;> interval_cases a2 <;> simp at h01 h12 h02 <;>
-    simp [Gen.M4.rotateE, Gen.M4.mul, Gen.M4.mulEntry, hs, hc] <;>
-    linear_combination (T.cos r.z * T.cos r.z + T.sin r.z * T.sin r.z) * hua + hug
-
-set_option maxHeartbeats 8000000 in
-theorem tb_lock_compose (T : Trig R) (r r' : V3 R) (σ : R) (hσ : σ = 1 ∨ σ = -1)
-    (hs : T.sin r.y = σ) (hc : T.cos r.y = 0)
-    (a0 a1 a2 : Nat) (h0 : a0 < 3) (h1 : a1 < 3) (h2 : a2 < 3) (h01 : a0 ≠ a1) (h12 : a1 ≠ a2) (h02 : a0 ≠ a2)
-    (hx : T.sin r'.x = σ * (-(tbSign a0 a1 : R)) * (-(tbSign a0 a1 : R) * Gen.M4.rotateE (fld R) T r a0 a1 a2 a1 a0) ∧
-          T.cos r'.x = Gen.M4.rotateE (fld R) T r a0 a1 a2 a1 a1)
-    (hy : T.sin r'.y = σ ∧ T.cos r'.y = 0)
-    (hz : T.sin r'.z = 0 ∧ T.cos r'.z = 1) :
-    toM4 (Gen.M4.rotateE (fld R) T r' a0 a1 a2) = toM4 (Gen.M4.rotateE (fld R) T r a0 a1 a2) := by
-  obtain ⟨hx1, hx2⟩ := hx
-  obtain ⟨hy1, hy2⟩ := hy
-  obtain ⟨hz1, hz2⟩ := hz
-  ext i j
-  rcases hσ with rfl | rfl <;>
-  interval_cases a0 <;> interval_cases a1 <;> interval_cases a2 <;> simp at h01 h12 h02 <;>
-    simp [tbSign, Gen.M4.rotateE, Gen.M4.mul, Gen.M4.mulEntry, hs, hc] at hx1 hx2 <;>
-    fin_cases i <;> fin_cases j <;>
-    simp [toM4, Gen.M4.rotateE, Gen.M4.mul, Gen.M4.mulEntry, hx1, hx2, hy1, hy2, hz1, hz2, hs, hc] <;> ring
+/-- `sin (m x) = m sin x`, `cos (m x) = cos x` for `m = ±1` -/
+theorem trig_pm {T : Trig R} (hT : TrigOK T) (m : R) (hm : m = 1 ∨ m = -1) (x : R) :
+    T.sin (m * x) = m * T.sin x ∧ T.cos (m * x) = T.cos x := by
+  rcases hm with h | h <;> rw [h] <;> simp [hT.sin_neg, hT.cos_neg]
 
 /-- **Tait–Bryan orders exactly on the gimbal lock** (`cos β = 0`): the locked branch reproduces the rotation -/
-theorem euler_tb_locked {T : Trig R} (hT : TrigOK T) (C : Cmp R) (hlt : ∀ a b, C.lt a b = decide (a < b))
-    (habs : ∀ x, C.abs x = |x|) (lim : R) (hlim : lim ≤ 1) (r : V3 R)
+theorem euler_tb_locked {T : Trig R} (hT : TrigOK T) {C : Cmp R} (hC : CmpStd C) (lim : R) (hlim : 0 ≤ lim) (r : V3 R)
     (a0 a1 a2 : Nat) (h0 : a0 < 3) (h1 : a1 < 3) (h2 : a2 < 3) (h01 : a0 ≠ a1) (h12 : a1 ≠ a2) (h02 : a0 ≠ a2)
     (hc : T.cos r.y = 0) :
     toM4 (Gen.M4.rotateE (fld R) T
@@ -346,48 +200,29 @@ theorem euler_tb_locked {T : Trig R} (hT : TrigOK T) (C : Cmp R) (hlt : ∀ a b,
   have hσ : T.sin r.y = 1 ∨ T.sin r.y = -1 := by
     rw [hc] at hub
     exact mul_self_eq_one_iff.mp (by linear_combination hub)
-  obtain ⟨e1, -, -, -, -⟩ := tb_entries T r a0 a1 a2 h0 h1 h2 h01 h12 h02
+  obtain ⟨e1, -, -, e4, e5⟩ := tb_entries T r a0 a1 a2 h0 h1 h2 h01 h12 h02
   have hcirc := tb_lock_entries T hT.unit r (T.sin r.y) hσ rfl hc a0 a1 a2 h0 h1 h2 h01 h12 h02
   set M := Gen.M4.rotateE (fld R) T r a0 a1 a2 with hM
   have hss := tbSign_sq (R := R) a0 a1
+  have hs2 : (tbSign a0 a1 : R) * tbSign a0 a1 = 1 := by rcases hss with h | h <;> rw [h] <;> ring
   have hM02 : M a0 a2 = -(tbSign a0 a1 : R) * T.sin r.y := by
     rcases hss with h | h <;> rw [h] at e1 ⊢ <;> first | linear_combination -e1 | linear_combination e1
-  have hcond : C.lt (C.abs (M a0 a2)) lim = false := by
-    rw [hlt, habs, hM02]
-    have : |(-(tbSign a0 a1 : R)) * T.sin r.y| = 1 := by
-      rcases hss with h | h <;> rcases hσ with h' | h' <;> rw [h, h'] <;> simp
-    rw [this]; simpa using hlim
-  -- the angle extracted by the locked branch
-  have hne : (-(tbSign a0 a1 : R)) * M a1 a0 ≠ 0 ∨ M a1 a1 ≠ 0 := by
-    by_contra h
-    push Not at h
-    obtain ⟨h1', h2'⟩ := h
-    have h3 : M a1 a0 = 0 := by
-      rcases hss with h | h <;> rw [h] at h1' <;> linarith
-    rw [h3, h2'] at hcirc; norm_num at hcirc
-  obtain ⟨ρ, hρ, q1, q2⟩ := hT.atan2_spec _ _ hne
-  have hρ1 : ρ = 1 := by
-    have hu2 := hT.unit (T.atan2 (-(tbSign a0 a1 : R) * M a1 a0) (M a1 a1))
-    apply pos_root_unique (le_of_lt hρ) one_pos
-    have hs2 : (tbSign a0 a1 : R) * tbSign a0 a1 = 1 := by rcases hss with h | h <;> rw [h] <;> ring
-    have : ρ * ρ * (T.cos (T.atan2 (-(tbSign a0 a1 : R) * M a1 a0) (M a1 a1)) * T.cos (T.atan2 (-(tbSign a0 a1 : R) * M a1 a0) (M a1 a1)) +
-        T.sin (T.atan2 (-(tbSign a0 a1 : R) * M a1 a0) (M a1 a1)) * T.sin (T.atan2 (-(tbSign a0 a1 : R) * M a1 a0) (M a1 a1))) =
-        tbSign a0 a1 * tbSign a0 a1 * (M a1 a0 * M a1 a0) + M a1 a1 * M a1 a1 := by
-      linear_combination (-(ρ * T.sin (T.atan2 (-(tbSign a0 a1 : R) * M a1 a0) (M a1 a1))) - (-(tbSign a0 a1 : R) * M a1 a0)) * q1 +
-        (-(ρ * T.cos (T.atan2 (-(tbSign a0 a1 : R) * M a1 a0) (M a1 a1))) - M a1 a1) * q2
-    rw [hu2, hs2] at this
-    linear_combination this + hcirc
-  rw [hρ1, one_mul] at q1 q2
+  have h00 : M a0 a0 = 0 := by rw [e5, hc]; ring
+  have h01' : M a0 a1 = 0 := by
+    have : (tbSign a0 a1 : R) * M a0 a1 = 0 := by rw [e4, hc]; ring
+    rcases hss with h | h <;> rw [h] at this <;> linarith
+  have hs0 : C.sqrt 0 = 0 := by
+    obtain ⟨_, h2'⟩ := hC.sqrt 0 (le_refl _)
+    exact mul_self_eq_zero.mp h2'
+  have hcond : C.lt lim 0 = false := by rw [hC.lt]; simpa using hlim
+  obtain ⟨q1, q2⟩ := atan2_unit hT (-(tbSign a0 a1 : R) * M a1 a0) (M a1 a1) (by linear_combination hcirc + (M a1 a0 * M a1 a0) * hs2)
+  obtain ⟨p1, p2⟩ := atan2_unit hT (T.sin r.y) 0 (by rcases hσ with h | h <;> rw [h] <;> ring)
   have hE : Gen.M4.eulerAngles (fld R) C T lim M a0 a1 a2 =
-      ⟨M a0 a2 * T.atan2 (-(tbSign a0 a1 : R) * M a1 a0) (M a1 a1), -(M a0 a2) * tbSign a0 a1 * (T.pi / 2), 0⟩ := by
-    unfold tbSign
-    simp only [Gen.M4.eulerAngles, h02, ne_eq, not_false_eq_true, if_true, hcond, Bool.false_eq_true, if_false, fld_mul, fld_neg, fld_div,
-      fld_lit, Nat.cast_one, Nat.cast_zero, Nat.cast_ofNat]
+      ⟨M a0 a2 * T.atan2 (-(tbSign a0 a1 : R) * M a1 a0) (M a1 a1), T.atan2 (T.sin r.y) 0, 0⟩ := by
+    unfold tbSign at e1 ⊢
+    simp only [Gen.M4.eulerAngles, h02, ne_eq, not_false_eq_true, if_true, fld_mul, fld_add, fld_neg, fld_lit, Nat.cast_one, Nat.cast_zero,
+      h00, h01', mul_zero, add_zero, hs0, hcond, Bool.false_eq_true, if_false, e1]
   rw [hE]
-  have hs2 : (tbSign a0 a1 : R) * tbSign a0 a1 = 1 := by rcases hss with h | h <;> rw [h] <;> ring
-  have pm : ∀ m : R, (m = 1 ∨ m = -1) → ∀ x, T.sin (m * x) = m * T.sin x ∧ T.cos (m * x) = T.cos x := by
-    intro m hm x
-    rcases hm with h | h <;> rw [h] <;> simp [hT.sin_neg, hT.cos_neg]
   have hm : M a0 a2 = 1 ∨ M a0 a2 = -1 := by
     rw [hM02]
     rcases hss with h | h <;> rcases hσ with h' | h' <;> rw [h, h'] <;> simp
@@ -395,49 +230,13 @@ theorem euler_tb_locked {T : Trig R} (hT : TrigOK T) (C : Cmp R) (hlt : ∀ a b,
   · show T.sin (M a0 a2 * T.atan2 (-(tbSign a0 a1 : R) * M a1 a0) (M a1 a1)) = _ ∧
       T.cos (M a0 a2 * T.atan2 (-(tbSign a0 a1 : R) * M a1 a0) (M a1 a1)) = _
     constructor
-    · rw [(pm _ hm _).1, ← q1, hM02]; ring
-    · rw [(pm _ hm _).2, ← q2]
-  · show T.sin (-(M a0 a2) * tbSign a0 a1 * (T.pi / 2)) = _ ∧ T.cos (-(M a0 a2) * tbSign a0 a1 * (T.pi / 2)) = 0
-    have e : -(M a0 a2) * tbSign a0 a1 * (T.pi / 2) = T.sin r.y * (T.pi / 2) := by
-      rw [hM02]; linear_combination (T.sin r.y * (T.pi / 2)) * hs2
-    rw [e, (pm _ hσ _).1, (pm _ hσ _).2, hT.sin_half_pi, hT.cos_half_pi]
-    simp
+    · rw [(trig_pm hT _ hm _).1, q1, hM02]; ring
+    · rw [(trig_pm hT _ hm _).2, q2]
+  · exact ⟨p1, p2⟩
   · exact ⟨hT.sin_zero, hT.cos_zero⟩
 
-
-set_option maxHeartbeats 8000000 in
-theorem pe_lock_entries (T : Trig R) (hu : ∀ x, T.cos x * T.cos x + T.sin x * T.sin x = 1) (r : V3 R) (σ : R) (hσ : σ = 1 ∨ σ = -1)
-    (hs : T.sin r.y = 0) (hc : T.cos r.y = σ) (a0 a1 : Nat) (h0 : a0 < 3) (h1 : a1 < 3) (h01 : a0 ≠ a1) :
-    Gen.M4.rotateE (fld R) T r a0 a1 a0 a1 (3 - a0 - a1) * Gen.M4.rotateE (fld R) T r a0 a1 a0 a1 (3 - a0 - a1) +
-      Gen.M4.rotateE (fld R) T r a0 a1 a0 a1 a1 * Gen.M4.rotateE (fld R) T r a0 a1 a0 a1 a1 = 1 := by
-  have hua := hu r.x
-  have hug := hu r.z
-  rcases hσ with rfl | rfl <;>
-  interval_cases a0 <;> interval_cases a1 <;> simp at h01 <;>
-    simp [Gen.M4.rotateE, Gen.M4.mul, Gen.M4.mulEntry, hs, hc] <;>
-    linear_combination (T.cos r.z * T.cos r.z + T.sin r.z * T.sin r.z) * hua + hug
-
-set_option maxHeartbeats 8000000 in
-theorem pe_lock_compose (T : Trig R) (r r' : V3 R) (σ : R) (hσ : σ = 1 ∨ σ = -1)
-    (hs : T.sin r.y = 0) (hc : T.cos r.y = σ) (a0 a1 : Nat) (h0 : a0 < 3) (h1 : a1 < 3) (h01 : a0 ≠ a1)
-    (hx : T.sin r'.x = σ * (-(peSign a0 a1 : R) * Gen.M4.rotateE (fld R) T r a0 a1 a0 a1 (3 - a0 - a1)) ∧
-          T.cos r'.x = Gen.M4.rotateE (fld R) T r a0 a1 a0 a1 a1)
-    (hy : T.sin r'.y = 0 ∧ T.cos r'.y = σ)
-    (hz : T.sin r'.z = 0 ∧ T.cos r'.z = 1) :
-    toM4 (Gen.M4.rotateE (fld R) T r' a0 a1 a0) = toM4 (Gen.M4.rotateE (fld R) T r a0 a1 a0) := by
-  obtain ⟨hx1, hx2⟩ := hx
-  obtain ⟨hy1, hy2⟩ := hy
-  obtain ⟨hz1, hz2⟩ := hz
-  ext i j
-  rcases hσ with rfl | rfl <;>
-  interval_cases a0 <;> interval_cases a1 <;> simp at h01 <;>
-    simp [peSign, Gen.M4.rotateE, Gen.M4.mul, Gen.M4.mulEntry, hs, hc] at hx1 hx2 <;>
-    fin_cases i <;> fin_cases j <;>
-    simp [toM4, Gen.M4.rotateE, Gen.M4.mul, Gen.M4.mulEntry, hx1, hx2, hy1, hy2, hz1, hz2, hs, hc] <;> ring
-
 /-- **proper Euler orders exactly on the lock** (`sin β = 0`) -/
-theorem euler_pe_locked {T : Trig R} (hT : TrigOK T) (C : Cmp R) (hlt : ∀ a b, C.lt a b = decide (a < b))
-    (habs : ∀ x, C.abs x = |x|) (lim : R) (hlim : lim ≤ 1) (r : V3 R)
+theorem euler_pe_locked {T : Trig R} (hT : TrigOK T) {C : Cmp R} (hC : CmpStd C) (lim : R) (hlim : 0 ≤ lim) (r : V3 R)
     (a0 a1 : Nat) (h0 : a0 < 3) (h1 : a1 < 3) (h01 : a0 ≠ a1) (hs : T.sin r.y = 0) :
     toM4 (Gen.M4.rotateE (fld R) T
       (Gen.M4.eulerAngles (fld R) C T lim (Gen.M4.rotateE (fld R) T r a0 a1 a0) a0 a1 a0) a0 a1 a0) =
@@ -446,57 +245,36 @@ theorem euler_pe_locked {T : Trig R} (hT : TrigOK T) (C : Cmp R) (hlt : ∀ a b,
   have hσ : T.cos r.y = 1 ∨ T.cos r.y = -1 := by
     rw [hs] at hub
     exact mul_self_eq_one_iff.mp (by linear_combination hub)
-  obtain ⟨e1, -, -, -, -⟩ := pe_entries T r a0 a1 h0 h1 h01
+  obtain ⟨e1, e2, e3, -, -⟩ := pe_entries T r a0 a1 h0 h1 h01
   have hcirc := pe_lock_entries T hT.unit r (T.cos r.y) hσ hs rfl a0 a1 h0 h1 h01
   set M := Gen.M4.rotateE (fld R) T r a0 a1 a0 with hM
   have hss := peSign_sq (R := R) a0 a1
   have hs2 : (peSign a0 a1 : R) * peSign a0 a1 = 1 := by rcases hss with h | h <;> rw [h] <;> ring
-  have hcond : C.lt (C.abs (T.cos r.y)) lim = false := by
-    rw [hlt, habs]
-    have : |T.cos r.y| = 1 := by rcases hσ with h' | h' <;> rw [h'] <;> simp
-    rw [this]; simpa using hlim
-  have hne : (-(peSign a0 a1 : R)) * M a1 (3 - a0 - a1) ≠ 0 ∨ M a1 a1 ≠ 0 := by
-    by_contra h
-    push Not at h
-    obtain ⟨h1', h2'⟩ := h
-    have h3 : M a1 (3 - a0 - a1) = 0 := by
-      rcases hss with h | h <;> rw [h] at h1' <;> linarith
-    rw [h3, h2'] at hcirc; norm_num at hcirc
-  obtain ⟨ρ, hρ, q1, q2⟩ := hT.atan2_spec _ _ hne
-  have hρ1 : ρ = 1 := by
-    have hu2 := hT.unit (T.atan2 (-(peSign a0 a1 : R) * M a1 (3 - a0 - a1)) (M a1 a1))
-    apply pos_root_unique (le_of_lt hρ) one_pos
-    have : ρ * ρ * (T.cos (T.atan2 (-(peSign a0 a1 : R) * M a1 (3 - a0 - a1)) (M a1 a1)) * T.cos (T.atan2 (-(peSign a0 a1 : R) * M a1 (3 - a0 - a1)) (M a1 a1)) +
-        T.sin (T.atan2 (-(peSign a0 a1 : R) * M a1 (3 - a0 - a1)) (M a1 a1)) * T.sin (T.atan2 (-(peSign a0 a1 : R) * M a1 (3 - a0 - a1)) (M a1 a1))) =
-        peSign a0 a1 * peSign a0 a1 * (M a1 (3 - a0 - a1) * M a1 (3 - a0 - a1)) + M a1 a1 * M a1 a1 := by
-      linear_combination (-(ρ * T.sin (T.atan2 (-(peSign a0 a1 : R) * M a1 (3 - a0 - a1)) (M a1 a1))) - (-(peSign a0 a1 : R) * M a1 (3 - a0 - a1))) * q1 +
-        (-(ρ * T.cos (T.atan2 (-(peSign a0 a1 : R) * M a1 (3 - a0 - a1)) (M a1 a1))) - M a1 a1) * q2
-    rw [hu2, hs2] at this
-    linear_combination this + hcirc
-  rw [hρ1, one_mul] at q1 q2
+  have h10 : M a1 a0 = 0 := by rw [e2, hs]; ring
+  have hk0 : M (3 - a0 - a1) a0 = 0 := by
+    have : (-(peSign a0 a1 : R)) * M (3 - a0 - a1) a0 = 0 := by rw [e3, hs]; ring
+    rcases hss with h | h <;> rw [h] at this <;> linarith
+  have hs0 : C.sqrt 0 = 0 := by
+    obtain ⟨_, h2'⟩ := hC.sqrt 0 (le_refl _)
+    exact mul_self_eq_zero.mp h2'
+  have hcond : C.lt lim 0 = false := by rw [hC.lt]; simpa using hlim
+  obtain ⟨q1, q2⟩ := atan2_unit hT (-(peSign a0 a1 : R) * M a1 (3 - a0 - a1)) (M a1 a1)
+    (by linear_combination hcirc + (M a1 (3 - a0 - a1) * M a1 (3 - a0 - a1)) * hs2)
+  obtain ⟨p1, p2⟩ := atan2_unit hT 0 (T.cos r.y) (by rcases hσ with h | h <;> rw [h] <;> ring)
   have hE : Gen.M4.eulerAngles (fld R) C T lim M a0 a1 a0 =
-      ⟨T.cos r.y * T.atan2 (-(peSign a0 a1 : R) * M a1 (3 - a0 - a1)) (M a1 a1), if T.cos r.y < 0 then T.pi else 0, 0⟩ := by
+      ⟨T.cos r.y * T.atan2 (-(peSign a0 a1 : R) * M a1 (3 - a0 - a1)) (M a1 a1), T.atan2 0 (T.cos r.y), 0⟩ := by
     unfold peSign
-    simp only [Gen.M4.eulerAngles, ne_eq, not_true_eq_false, if_false, e1, hcond, Bool.false_eq_true, hlt, decide_eq_true_eq,
-      fld_mul, fld_neg, fld_lit, Nat.cast_one, Nat.cast_zero]
+    simp only [Gen.M4.eulerAngles, ne_eq, not_true_eq_false, if_false, fld_mul, fld_add, fld_neg, fld_lit, Nat.cast_one, Nat.cast_zero,
+      h10, hk0, mul_zero, add_zero, hs0, hcond, Bool.false_eq_true, e1]
   rw [hE]
-  have pm : ∀ m : R, (m = 1 ∨ m = -1) → ∀ x, T.sin (m * x) = m * T.sin x ∧ T.cos (m * x) = T.cos x := by
-    intro m hm x
-    rcases hm with h | h <;> rw [h] <;> simp [hT.sin_neg, hT.cos_neg]
   apply pe_lock_compose T r _ (T.cos r.y) hσ hs rfl a0 a1 h0 h1 h01
   · show T.sin (T.cos r.y * T.atan2 (-(peSign a0 a1 : R) * M a1 (3 - a0 - a1)) (M a1 a1)) = _ ∧
       T.cos (T.cos r.y * T.atan2 (-(peSign a0 a1 : R) * M a1 (3 - a0 - a1)) (M a1 a1)) = _
     constructor
-    · rw [(pm _ hσ _).1, ← q1]
-    · rw [(pm _ hσ _).2, ← q2]
-  · show T.sin (if T.cos r.y < 0 then T.pi else 0) = 0 ∧ T.cos (if T.cos r.y < 0 then T.pi else 0) = T.cos r.y
-    rcases hσ with h' | h' <;> rw [h']
-    · have : ¬ ((1 : R) < 0) := by norm_num
-      rw [if_neg this]; exact ⟨hT.sin_zero, hT.cos_zero⟩
-    · have : ((-1 : R) < 0) := by norm_num
-      rw [if_pos this]; exact ⟨hT.sin_pi, hT.cos_pi⟩
+    · rw [(trig_pm hT _ hσ _).1, q1]
+    · rw [(trig_pm hT _ hσ _).2, q2]
+  · exact ⟨p1, p2⟩
   · exact ⟨hT.sin_zero, hT.cos_zero⟩
-
 
 end euler
 
